@@ -1,18 +1,31 @@
-import CalicoVerif.Model.C32
+import CalicoVerif.Proofs.C32
 /-!
 C32 — Flow aggregation conserves counts and emits each window once
 (goldmane/pkg/storage BucketRing). Property theorems over the model `CalicoVerif.Model.C32`.
 
-STATUS (honest): proved here are the per-operation conservation facts (a flow is sorted only into a
-bucket that contains its start time, a rejected flow changes nothing, adding to the per-key windows
-raises the total by exactly the flow's count and touches only the window of that bucket). The
-history-level statements `query_eq_sum_retained` and `emitted_window_complete` are NOT proved (they
-are checked by the oracle of the harness on the real code only). `emit_at_most_once` is FALSE of the
-current code for some ring configurations — witness below, reproduced on the real code.
+STATUS (honest).
+Proved for every history from `NewBucketRing` (any size/interval/options, any interleaving of
+AddFlow / Rollover with or without sink / EmitFlowCollections):
+* the ring stays contiguous, hence every flow is sorted into exactly one bucket
+  (`one_bucket_per_flow`), flows outside the history are dropped without effect;
+* the count stored for (key, bucket) equals the sum of the accepted flows of that key whose start
+  time lies in that bucket (`window_eq_sum_accepted`, ghost log of accepted flows);
+* `List` returns for every key the sum of its windows inside the range (`list_count`), which for a
+  range that is exactly one retained bucket is the sum of the accepted flows of that bucket
+  (`query_eq_sum_retained_partial`). NOT proved: the same identification for ranges spanning several
+  buckets (needs "no stale / duplicate windows", which holds by window sortedness but is not proved).
+* emission: a window is only built if its first bucket is not pushed; every bucket of a collection
+  handed to the sink is pushed afterwards, so it is never again the first bucket of a built window
+  (`emit_at_most_once_partial`); a built collection carries for each key the sum of its windows inside
+  the collection's time window (`emitted_window_complete_partial`).
+`emit_at_most_once` in full (no bucket in two collections) is FALSE of the current code for ring
+configurations that violate `emitGuard` (witness below, replayed on the real code); the default
+goldmane configuration 242/30/20 satisfies the guard (`emitGuard_default`). That the guard implies
+non-overlapping windows is NOT proved (it is what the harness oracle checks on the real code: all
+double emissions observed are in configurations that violate the guard).
 -/
 namespace CalicoVerif.C32
 
-def total (ws : List Win) : Int := (ws.map (·.cnt)).sum
 
 /-- `DiachronicFlow.AddFlow` conserves counts: the per-key total grows by exactly the flow's count. -/
 theorem addWin_total (start stop cnt : Int) (ws : List Win) :
@@ -94,6 +107,90 @@ theorem addFlow_other_buckets (r : Ring) (key : Nat) (t cnt : Int) (i j : Nat) (
 /-- `maybeBuildFlowCollection` never builds a window whose first bucket was already pushed. -/
 theorem maybeBuild_none_of_pushed (r : Ring) (s e : Nat) (h : (r.bucket s).pushed = true) : r.maybeBuild s e = none := by
   simp [Ring.maybeBuild, h]
+
+/-! ## every reachable ring is contiguous; one bucket per flow -/
+
+/-- Histories: any interleaving of AddFlow / Rollover (with or without sink) / EmitFlowCollections
+from a freshly built ring, together with the ghost log of the ACCEPTED flows. -/
+theorem reachable_invariant (n : Nat) (interval now : Int) (pushAfter agg : Nat) (hn : 0 < n) (hi : 0 < interval)
+    (ops : List Op) :
+    GInv (grun (newRing n interval now pushAfter agg, []) ops).1 (grun (newRing n interval now pushAfter agg, []) ops).2 :=
+  grun_ginv (newRing_ginv n interval now pushAfter agg hn hi) ops
+
+/-- On a contiguous ring (every reachable ring, `reachable_invariant`): a flow whose start time lies in
+the retained history is sorted into a bucket that contains it, and that is the ONLY bucket containing
+it; a flow outside the history is rejected. -/
+theorem one_bucket_per_flow {r : Ring} (hc : Contig r) (t : Int) :
+    (r.boh ≤ t ∧ t < r.eoh →
+      ∃ i, i < r.n ∧ r.findBucket t = some i ∧ (r.bucket i).contains t = true ∧
+        ∀ j, j < r.n → (r.bucket j).contains t = true → j = i) ∧
+    (¬ (r.boh ≤ t ∧ t < r.eoh) → r.findBucket t = none) := by
+  constructor
+  · rintro ⟨h1, h2⟩
+    obtain ⟨i, hi, hf, hcn⟩ := contig_findBucket hc t h1 h2
+    exact ⟨i, hi, hf, hcn, fun j hj hcj => contig_unique hc t j i hj hi hcj hcn⟩
+  · intro h
+    unfold Ring.findBucket
+    have : t ≥ r.eoh ∨ t < r.boh := by omega
+    simp [this]
+
+/-! ## counts are conserved: stored counts = sums of accepted flows -/
+
+/-- In every reachable state, for every key and every bucket of the ring, the count stored in the
+key's window for that bucket is exactly the sum of the counts of the accepted flows of that key whose
+start time lies in the bucket (flows of buckets that were rolled over are no longer counted anywhere:
+their window is dropped with the bucket). -/
+theorem window_eq_sum_accepted (n : Nat) (interval now : Int) (pushAfter agg : Nat) (hn : 0 < n) (hi : 0 < interval)
+    (ops : List Op) (k i : Nat) :
+    let s := grun (newRing n interval now pushAfter agg, []) ops
+    i < s.1.n → wcOf (s.1.wins k) (s.1.bucket i).start = logSum s.2 k (s.1.bucket i).start (s.1.bucket i).stop := by
+  intro s hlt
+  exact (reachable_invariant n interval now pushAfter agg hn hi ops).q k i hlt
+
+/-- `List` (time index): the count of every returned row is the sum of that key's windows inside the range. -/
+theorem list_eq_sum_windows (r : Ring) (gte lt : Int) (x : Nat × Int × Int × Int) (hx : x ∈ r.list gte lt) :
+    x.2.1 = total ((r.wins x.1).filter (inRange gte lt)) := list_count r gte lt x hx
+
+/-- query = sum of retained accepted flows, for a range that is exactly one bucket of the ring (bounds
+≠ 0: the code reads a bound of 0 as "unbounded"). PARTIAL: ranges spanning several buckets are covered
+by `list_eq_sum_windows` + `window_eq_sum_accepted` only up to the (unproved) absence of stale windows. -/
+theorem query_eq_sum_retained_partial (n : Nat) (interval now : Int) (pushAfter agg : Nat) (hn : 0 < n) (hi : 0 < interval)
+    (ops : List Op) (i : Nat) (x : Nat × Int × Int × Int) :
+    let s := grun (newRing n interval now pushAfter agg, []) ops
+    i < s.1.n → (s.1.bucket i).start ≠ 0 → (s.1.bucket i).stop ≠ 0 →
+    x ∈ s.1.list (s.1.bucket i).start (s.1.bucket i).stop →
+    x.2.1 = logSum s.2 x.1 (s.1.bucket i).start (s.1.bucket i).stop := by
+  intro s hlt h0 h1 hx
+  have hg := reachable_invariant n interval now pushAfter agg hn hi ops
+  rw [list_count _ _ _ x hx, range_one_bucket hg x.1 i hlt h0 h1]
+  exact hg.q x.1 i hlt
+
+/-! ## emission -/
+
+/-- PARTIAL at-most-once: every bucket of a collection handed to the sink is marked pushed, and a window
+is only built when its first bucket is not pushed — so after an emission no bucket of a sent collection
+is the first bucket of a window built from the resulting ring. -/
+theorem emit_at_most_once_partial (r : Ring) (c1 c2 : Coll) (hc1 : c1 ∈ r.emit.2) (s e : Nat) (hs : s < r.n)
+    (hc2 : r.emit.1.maybeBuild s e = some c2) : s ∉ c1.idxs := by
+  intro hmem
+  have h1 := emit_sent_marked r c1 hc1 s hmem hs
+  have h2 := maybeBuild_start_unpushed _ s e c2 hc2
+  rw [h1] at h2; cases h2
+
+/-- PARTIAL completeness: a built collection spans `[start of its first bucket, start of its end
+bucket)` and carries, for each key it lists, the sum of that key's windows inside that time window —
+by `window_eq_sum_accepted` each such window is the sum of the flows accepted into its bucket so far.
+(Late flows accepted afterwards are not in it: `late_flow_never_emitted`.) -/
+theorem emitted_window_complete_partial (r : Ring) (s e : Nat) (c : Coll) (h : r.maybeBuild s e = some c)
+    (k : Nat) (x : Int) (hk : (k, x) ∈ c.flows) :
+    c.start = (r.bucket s).start ∧ c.stop = (r.bucket e).start ∧
+    x = total ((r.wins k).filter (inRange c.start c.stop)) := maybeBuild_flows r s e c h k x hk
+
+/-- the default goldmane configuration (242 buckets, pushIndex 30, 20 buckets aggregated) satisfies the guard -/
+theorem emitGuard_default : emitGuard 242 30 20 = true := by decide
+
+/-- the configurations of the counterexample / of the non-terminating walk violate it -/
+theorem emitGuard_witnesses : emitGuard 7 0 2 = false ∧ emitGuard 4 0 1 = false := by decide
 
 /-! ### `emit_at_most_once` is false of the current code (witness; replayed on the real BucketRing) -/
 
